@@ -5,6 +5,7 @@ import FractopoModel.Generated.BoundaryWeight
 import FractopoModel.Generated.ParamTable
 import FractopoModel.Generated.BranchBoundary
 import FractopoModel.Generated.BoundaryLines
+import FractopoModel.Generated.NetworkInit
 /-!
 # C08 — network parameters equal the published definitions
 -/
@@ -199,5 +200,22 @@ end boundary
 
 example : ∃ n : NetIn, n.X = 1 ∧ n.area > 0 ∧ n.param "Connections per Branch" = some (.num 2) :=
   ⟨⟨1, 0, 0, 4, [2, 2], [1, 1, 1, 1], 4, true, 3, fun x => x⟩, by decide +kernel⟩
+
+/-- **A Network's values come from its own traces, not from what an earlier analysis left in the caller's frame.** In the regenerated
+`Network.__post_init__` everything the Network keeps is a function of the copy taken of the caller's frame at construction; the length, weight and
+boundary-count columns that `LineData` caches are written into that copy (and into the crop made from it), never into the caller's frame, so a second
+Network built from the same caller's frame starts from the same columns as the first. (History stream S08-network observes exactly this.) -/
+theorem C08_network_values_from_a_copy {G' A' : Type} (area_is_empty : A' → Bool) (copy_ : List G' → List G') (has_z : List G' → Bool) (drop_z : List G' → List G')
+    (crop_ : List G' → A' → Bool → List G') (given : Bool) (traces traces' : List G') (area : A') (truncate circular topo rz : Bool)
+    (h : copy_ traces = copy_ traces') :
+    Gen.network_init area_is_empty copy_ has_z drop_z crop_ given traces area truncate circular topo rz () () =
+      Gen.network_init area_is_empty copy_ has_z drop_z crop_ given traces' area truncate circular topo rz () () := by
+  unfold Gen.network_init
+  simp only [h]
+
+/-- the hypothesis is met by two different caller frames with the same copy, and the frame the Network keeps is then the same -/
+example : Gen.network_init (fun (_ : Unit) => false) (fun (l : List Nat) => l.map (· % 10)) (fun _ => false) id (fun l _ _ => l) true [11, 22] () false false false false () ()
+    = Gen.network_init (fun (_ : Unit) => false) (fun (l : List Nat) => l.map (· % 10)) (fun _ => false) id (fun l _ _ => l) true [1, 2] () false false false false () () := by decide
+
 
 end C08
